@@ -209,27 +209,35 @@ func init() {
 			return nil, true
 		},
 		// ---- sync/atomic on cells
-		"sync/atomic.LoadUint32":           atomicLoad,
-		"sync/atomic.LoadUint64":           atomicLoad,
-		"sync/atomic.LoadInt32":            atomicLoad,
-		"sync/atomic.LoadInt64":            atomicLoad,
-		"sync/atomic.LoadPointer":          atomicLoad,
-		"sync/atomic.StoreUint32":          atomicStore,
-		"sync/atomic.StoreUint64":          atomicStore,
-		"sync/atomic.StoreInt32":           atomicStore,
-		"sync/atomic.StoreInt64":           atomicStore,
-		"sync/atomic.AddUint32":            atomicAdd,
-		"sync/atomic.AddUint64":            atomicAdd,
-		"sync/atomic.AddInt32":             atomicAdd,
-		"sync/atomic.AddInt64":             atomicAdd,
-		"sync/atomic.SwapUint32":           atomicSwap,
-		"sync/atomic.SwapInt32":            atomicSwap,
-		"sync/atomic.SwapUint64":           atomicSwap,
-		"sync/atomic.SwapInt64":            atomicSwap,
-		"sync/atomic.CompareAndSwapUint32": atomicCAS,
-		"sync/atomic.CompareAndSwapInt32":  atomicCAS,
-		"sync/atomic.CompareAndSwapUint64": atomicCAS,
-		"sync/atomic.CompareAndSwapInt64":  atomicCAS,
+		"sync/atomic.LoadUint32":            atomicLoad,
+		"sync/atomic.LoadUint64":            atomicLoad,
+		"sync/atomic.LoadInt32":             atomicLoad,
+		"sync/atomic.LoadInt64":             atomicLoad,
+		"sync/atomic.LoadPointer":           atomicLoad,
+		"sync/atomic.StorePointer":          atomicStore,
+		"sync/atomic.SwapPointer":           atomicSwap,
+		"sync/atomic.CompareAndSwapPointer": atomicCAS,
+		"sync/atomic.LoadUintptr":           atomicLoad,
+		"sync/atomic.StoreUintptr":          atomicStore,
+		"sync/atomic.AddUintptr":            atomicAdd,
+		"sync/atomic.SwapUintptr":           atomicSwap,
+		"sync/atomic.CompareAndSwapUintptr": atomicCAS,
+		"sync/atomic.StoreUint32":           atomicStore,
+		"sync/atomic.StoreUint64":           atomicStore,
+		"sync/atomic.StoreInt32":            atomicStore,
+		"sync/atomic.StoreInt64":            atomicStore,
+		"sync/atomic.AddUint32":             atomicAdd,
+		"sync/atomic.AddUint64":             atomicAdd,
+		"sync/atomic.AddInt32":              atomicAdd,
+		"sync/atomic.AddInt64":              atomicAdd,
+		"sync/atomic.SwapUint32":            atomicSwap,
+		"sync/atomic.SwapInt32":             atomicSwap,
+		"sync/atomic.SwapUint64":            atomicSwap,
+		"sync/atomic.SwapInt64":             atomicSwap,
+		"sync/atomic.CompareAndSwapUint32":  atomicCAS,
+		"sync/atomic.CompareAndSwapInt32":   atomicCAS,
+		"sync/atomic.CompareAndSwapUint64":  atomicCAS,
+		"sync/atomic.CompareAndSwapInt64":   atomicCAS,
 		// ---- math bit casts
 		"math.Float32bits":     ident,
 		"math.Float32frombits": ident,
